@@ -221,7 +221,7 @@ def run(chk, ctx) -> None:
 
     class _Split(_Rename):
         def ob(self, rule, construct, *a, **k):
-            if '_begin_chips_pushing' in construct and 'self.board_count' not in construct and 'amount' in construct.split('divmod(')[1][:8]:
+            if '_begin_chips_pushing' in construct and 'divmod(/self.board_count)' in construct:
                 return self.chk.ob('C14.split', construct, *a, **k)
             return True
 
